@@ -31,12 +31,13 @@ func (silent) Warn(string)  {}
 func (silent) Error(string) {}
 
 type regRound struct {
-	Reqs    [][]int `json:"reqs"`    // per runtime: file ids required, in order
-	OK      []bool  `json:"ok"`      // per file id: does it load and compile
-	Counts  []int   `json:"counts"`  // per file id: SourceLoader calls for exactly that path
-	Shared  bool    `json:"shared"`  // a runtime saw another runtime's module state
-	Evals   []int   `json:"evals"`   // per runtime: how many module bodies it evaluated
-	Expect  []int   `json:"expect"`  // per runtime: distinct loadable files it required
+	Reqs      [][]int  `json:"reqs"`      // per runtime: file ids required, in order
+	OK        []bool   `json:"ok"`        // per file id: does it load and compile
+	Counts    []int    `json:"counts"`    // per file id: SourceLoader calls for exactly that path
+	Shared    bool     `json:"shared"`    // a runtime saw another runtime's module state
+	Evals     []int    `json:"evals"`     // per runtime: how many module bodies it evaluated
+	Expect    []int    `json:"expect"`    // per runtime: distinct loadable files it required
+	Refetched []string `json:"refetched"` // package.json / main files of package directories that the SourceLoader was asked for more than once
 }
 
 func loopWorkload(r *lib.Rand, rounds int) {
@@ -129,12 +130,22 @@ func registryWorkload(r *lib.Rand, rounds int) []regRound {
 				src[fmt.Sprintf("/m/f%d.js", i)] = fmt.Sprintf("globalThis.__evals = (globalThis.__evals || 0) + 1; module.exports = {id: %d, mark: null}", i)
 			}
 		}
+		// package directories: every runtime reaches their modules through the directory, i.e. through package.json
+		ndirs := 1 + r.Intn(3)
+		for d := 0; d < ndirs; d++ {
+			src[fmt.Sprintf("/m/d%d/package.json", d)] = `{"main": "lib.js"}`
+			src[fmt.Sprintf("/m/d%d/lib.js", d)] = fmt.Sprintf("module.exports = {dir: %d}", d)
+		}
 		counts := make([]int32, nfiles)
+		manifestFetches := map[string]int{} // the loader's own, unsynchronised bookkeeping: the Registry serialises the fetches
 		loader := func(p string) ([]byte, error) {
 			for i := 0; i < nfiles; i++ {
 				if p == fmt.Sprintf("/m/f%d.js", i) {
 					atomic.AddInt32(&counts[i], 1)
 				}
+			}
+			if _, exists := src[p]; exists && (strings.HasSuffix(p, "/package.json") || strings.HasSuffix(p, "/lib.js")) {
+				manifestFetches[p]++ // a file that is there and is handed out; asking for a file that does not exist fetches nothing
 			}
 			if s, ok := src[p]; ok {
 				return []byte(s), nil
@@ -170,6 +181,11 @@ func registryWorkload(r *lib.Rand, rounds int) []regRound {
 				vm := goja.New()
 				reg.Enable(vm)
 				<-start
+				for d := 0; d < ndirs; d++ {
+					if (k+d)%2 == 0 {
+						vm.RunString(fmt.Sprintf("try { require('/m/d%d') } catch (e) {}", d))
+					}
+				}
 				for _, f := range reqs {
 					v, err := vm.RunString(fmt.Sprintf("(function(){ try { var m = require('/m/f%d.js'); if (m.mark !== null && m.mark !== %d) return 'shared'; m.mark = %d; return 'ok' } catch (e) { return 'err' } })()", f, k, k))
 					if err == nil && v.String() == "shared" {
@@ -188,6 +204,11 @@ func registryWorkload(r *lib.Rand, rounds int) []regRound {
 		}
 		rr.Shared = shared == 1
 		rr.Evals, rr.Expect = evals, expect
+		for p, n := range manifestFetches {
+			if n > 1 {
+				rr.Refetched = append(rr.Refetched, fmt.Sprintf("%s fetched %d times by %d runtimes", p, n, nrt))
+			}
+		}
 		out = append(out, rr)
 	}
 	return out
@@ -392,6 +413,10 @@ func main() {
 				}
 			}
 			coq := fmt.Sprintf("{| c_reqs := %s; c_ok := %s; c_counts := %s; c_shared := %s; c_evals_ok := %s |}", lib.List(flat), lib.List(oks), lib.List(cnts), lib.Bool(rr.Shared), lib.Bool(evalsOK))
+			if len(rr.Refetched) > 0 {
+				out.Fail(len(out.Cases), "source-file-fetched-more-than-once", map[string]interface{}{"files": rr.Refetched, "runtimes": len(rr.Reqs),
+					"note": "every runtime requires the package directories /m/d<i> (package.json main lib.js) of one shared Registry"})
+			}
 			out.Add(coq, map[string]interface{}{"reqs": rr.Reqs, "ok": rr.OK, "counts": rr.Counts, "evals": rr.Evals}, len(rr.Reqs) >= 3)
 			out.Count("runtimes", strconv.Itoa(len(rr.Reqs)))
 		}
